@@ -1,7 +1,7 @@
 SPECIFICATION Spec
 CONSTANTS
-  Level = 2
-  GuardEmpty = TRUE
+  Level = 1
+  GuardEmpty = FALSE
 INVARIANT Refines
 INVARIANT ReadsInside
 INVARIANT PtrInside
